@@ -155,6 +155,16 @@ def finish(prop, tier, seed, t0, stats, coverage, assumptions, quiet=False):
             known[ent['id']][1] += 1
         else:
             fresh.append(v)
+    # one representative of every (kind, features) class first, so that no class is hidden by the artefact cap
+    firsts, rest, seen_cls = [], [], set()
+    for v in fresh:
+        cls = (v['kind'], json.dumps(v.get('features') or {}, sort_keys=True, default=repr))
+        if cls in seen_cls:
+            rest.append(v)
+        else:
+            seen_cls.add(cls)
+            firsts.append(v)
+    fresh = firsts + rest
     # violations beyond the per-shard cap are only counted; they can only be
     # declared known if every *kind* counter is covered by a known entry
     kinds_fresh = set(v['kind'] for v in fresh)
